@@ -99,8 +99,9 @@ OP = {"add": "Add", "update": "Update", "update-irrelevant": "Update", "update-i
       "delete": "Delete"}
 
 
-def events_of(o):
-    return [x for x in o.get("events") or [] if not x.get("err")]
+def events_of(o, model=False):
+    """events that could be driven; model=True: only the kinds the model knows (APUserSig is judged by S alone)"""
+    return [x for x in o.get("events") or [] if not x.get("err") and not (model and x["kind"] == "usersig")]
 
 
 def deps_of(o):
@@ -117,7 +118,7 @@ def case_to_coq(c):
                                                 B(r["req"])) for r in o["rev"])
     pf = L("(%s, %s, %s)" % (S(p["skel"]["ns"]), S(p["skel"]["name"]), B(p["found"])) for p in o["pols"])
     evs = L("(Build_ev %s %s %s %s %s %s %s)" % ((KIND[x["kind"]],) + tuple(S(t) for t in x["key"].split("/", 1)) +
-                                                  (OP[x["op"]], B(x["relevant"]), B(x["regen"]), B(x["stale"]))) for x in events_of(o))
+                                                  (OP[x["op"]], B(x["relevant"]), B(x["regen"]), B(x["stale"]))) for x in events_of(o, model=True))
     return "res_case %d %s %s %s %s %s %s %s %s" % (c["eid"], env, cq_cluster(c), cq_resource(o["skel"]), L(cq_dep(d) for d in deps_of(o)),
                                                     L(cq_dep(d) for d in o["lookups"]), revs, pf, evs)
 
@@ -250,6 +251,8 @@ def positions(sk, kind, key):
                 out.add("ing-dos")
     elif kind in ("dospolicy", "doslogconf"):
         out.add("dos-hop")
+    elif kind == "usersig":
+        out.add("appolicy-signature-requirement")
     elif kind in ("appolicy", "aplogconf"):
         a = "ap_policy" if kind == "appolicy" else "ap_logconf"
         for i in ings:
@@ -304,8 +307,9 @@ def judge(run, cases, res):
                 run.failing({"kind": "unreachable-dependency", "dep": d["kind"], "position": pos}, [c],
                             "case %d (%s): the extended resource %s depends on %s %s (position %s) but the reverse path does not map it back"
                             % (cid, c["class"], o["res_key"], d["kind"], d["key"], pos), theorem="Refs.Cases.spec_ok")
+        if not spec or any(x["stale"] for x in evs if x["kind"] == "usersig"):
             seen = set()
-            for x in evs:                            # Refs.Cases.ev_spec_ok: every stale event, one report per signature
+            for x in evs:                            # Refs.Cases.ev_spec_ok (APUserSig events: the same observable, judged here)
                 if not x["stale"]:
                     continue
                 pos = positions(o["skel"], x["kind"], x["key"])
